@@ -38,9 +38,6 @@ var c01Extra = []c14ColSpec{
 	{mk: func() proto.Column {
 		return proto.NewMap[string, proto.Nullable[uint8]](new(proto.ColStr), new(proto.ColUInt8).Nullable())
 	}},
-	{mk: func() proto.Column {
-		return proto.NewArray[map[string]string](proto.NewMap[string, string](new(proto.ColStr), new(proto.ColStr)))
-	}},
 	{mk: func() proto.Column { return proto.NewArray[bool](new(proto.ColBool)) }},
 	{mk: func() proto.Column { return new(proto.ColJSONStr).Array() }},
 	{mk: func() proto.Column { return new(proto.ColJSONStr).LowCardinality() }},
@@ -424,7 +421,7 @@ func runC06(h *H) {
 			}
 			rows := []int{1, 2, 3, 4}[h.R.Intn(4)]
 			c := c01One(h, s, rows, false)
-			if c == nil {
+			if c == nil || c.ty == "(tuple)" { // Tuple() of no columns has no rows of its own (not a ClickHouse type)
 				continue
 			}
 			w := c.wire()
@@ -482,5 +479,249 @@ func runC06(h *H) {
 	}
 	if pend != nil {
 		pend.Truncate(0)
+	}
+}
+
+// C07 for protocol messages: every proper prefix of every message encoding is rejected
+func init() {
+	runners["c07msg"] = runC07Msg
+	runners["c15"] = runC15
+}
+
+func runC07Msg(h *H) {
+	revs := revisions(h)
+	n := 0
+	for n < h.N {
+		for _, m := range messages {
+			rev := revs[h.R.Intn(len(revs))]
+			if !m.aware {
+				rev = 0
+			}
+			v, fs := m.fresh()
+			for _, f := range fs {
+				f.gen(h.R)
+			}
+			var b proto.Buffer
+			m.enc(v, &b, rev)
+			body := b.Buf
+			if m.hasCod {
+				body = body[1:]
+			}
+			step := 1
+			if len(body) > 400 {
+				step = 1 + len(body)/200
+			}
+			for cut := 0; cut < len(body); cut += step {
+				v2, fs2 := m.fresh()
+				obs, ok := decodeObs(body[:cut], func(r *proto.Reader) (string, error) {
+					err := m.dec(v2, r, rev)
+					return fieldsSx(fs2), err
+				})
+				oracle := "ok"
+				if ok {
+					oracle = fmt.Sprintf("FAIL:prefix of %d of %d bytes of %s accepted", cut, len(body), m.name)
+				}
+				h.Emit(fmt.Sprintf("dec %s %d %s", m.name, rev, hx(body[:cut])), obs, oracle)
+				n++
+			}
+			h.Stat("msgcut." + m.name)
+		}
+		// Query
+		rev := revs[h.R.Intn(len(revs))]
+		if !proto.FeatureSettingsSerializedAsStrings.In(rev) {
+			continue
+		}
+		q := genQuery(h.R)
+		var b proto.Buffer
+		q.EncodeAware(&b, rev)
+		body := b.Buf[1:]
+		step := 1 + len(body)/150
+		for cut := 0; cut < len(body); cut += step {
+			var q2 proto.Query
+			obs, ok := decodeObs(body[:cut], func(r *proto.Reader) (string, error) {
+				err := q2.DecodeAware(r, rev)
+				return querySx(&q2), err
+			})
+			oracle := "ok"
+			if ok {
+				oracle = fmt.Sprintf("FAIL:prefix of %d of %d bytes of a query accepted", cut, len(body))
+			}
+			h.Emit(fmt.Sprintf("dec query %d %s", rev, hx(body[:cut])), obs, oracle)
+			n++
+		}
+		h.Stat("msgcut.query")
+	}
+}
+
+// C15: every value of the narrow element types, fresh and reset targets
+func runC15(h *H) {
+	narrow := []string{"Int8", "UInt8", "Bool", "Enum8('a' = 1, 'b' = 2)", "Nullable(Int8)", "Array(Int8)", "LowCardinality(UInt8)"}
+	wide := []string{"Int16", "UInt16", "Date", "Enum16('x' = 1000, 'y' = -5, 'z' = 7)"}
+	sweep := func(typ string, bits int) {
+		s := c14ColSpec{typ: typ}
+		col, err := s.build()
+		if err != nil {
+			h.Stat("c15.skipped")
+			return
+		}
+		// all element values through the raw wire form: decode 2^bits rows of consecutive values
+		n := 1 << uint(bits)
+		raw := make([]byte, 0, n*bits/8)
+		for i := 0; i < n; i++ {
+			raw = append(raw, byte(i))
+			if bits == 16 {
+				raw = append(raw, byte(i>>8))
+			}
+		}
+		ty, _, derr := colDump(col)
+		if derr != nil || !(strings.HasPrefix(ty, "(fix") || ty == "bool") {
+			return
+		}
+		if ty == "bool" {
+			raw = []byte{0, 1, 1, 0}
+			n = 4
+		}
+		obs, col2, ok := decObs(s, n, raw)
+		oracle := "ok"
+		if !ok {
+			oracle = "FAIL:decode of all element values failed"
+		} else if _, b2, e2 := encodeCol(col2, []byte{9, 9, 9}); e2 != nil || !bytes.Equal(b2, raw) {
+			oracle = "FAIL:re-encoding of all element values differs"
+		}
+		h.Emit(fmt.Sprintf("dec %s %s %d %s", buildName, ty, n, hx(raw)), obs, oracle)
+		// reset-after-use target: decode something else first, Reset, decode again
+		if ok {
+			col2.Reset()
+			r := proto.NewReader(bytes.NewReader(raw))
+			var obs2 string
+			if err := col2.DecodeColumn(r, n); err != nil {
+				obs2 = "err"
+			} else {
+				_, d2, _ := colDump(col2)
+				obs2 = fmt.Sprintf("ok %s %d %s %d", d2, col2.Rows(), bsym(rowsReadable(col2)), 0)
+			}
+			o2 := "ok"
+			if obs2 != obs {
+				o2 = "FAIL:decode into a reset column differs from decode into a fresh one"
+			}
+			h.Emit(fmt.Sprintf("dec %s %s %d %s", buildName, ty, n, hx(raw)), obs2, o2)
+		}
+		h.Stat("c15.sweep")
+	}
+	for _, t := range narrow {
+		sweep(t, 8)
+	}
+	if h.Tier == "thorough" {
+		for _, t := range wide {
+			sweep(t, 16)
+		}
+	}
+	// reset-after-use for every catalogue kind: fill, encode, reset, decode own bytes, compare with fresh decode
+	cat := c01Catalogue()
+	n := 0
+	for n < h.N {
+		for _, s := range cat {
+			if c01Skip(s) {
+				continue
+			}
+			rows := []int{0, 1, 3, 9, 130}[h.R.Intn(5)]
+			c := c01One(h, s, rows, true)
+			n++
+			if c == nil {
+				continue
+			}
+			w := c.wire()
+			obsFresh, _, okF := decObs(s, rows, w)
+			// used target: the encoded column itself, Reset, then decode
+			used := c.col
+			used.Reset()
+			obsUsed := "err"
+			func() {
+				defer func() {
+					if p := recover(); p != nil {
+						obsUsed = "crash"
+					}
+				}()
+				r := proto.NewReader(bytes.NewReader(w))
+				if rows > 0 {
+					if sd, ok := used.(proto.StateDecoder); ok {
+						if err := sd.DecodeState(r); err != nil {
+							return
+						}
+					}
+					if err := used.DecodeColumn(r, rows); err != nil {
+						return
+					}
+				}
+				_, d2, derr := colDump(used)
+				if derr != nil {
+					obsUsed = "-"
+					return
+				}
+				obsUsed = fmt.Sprintf("ok %s %d %s %d", d2, used.Rows(), bsym(rowsReadable(used)), 0)
+			}()
+			oracle := "ok"
+			if !okF || obsUsed != obsFresh {
+				oracle = "FAIL:decode into a reset column differs from decode into a fresh one"
+			}
+			h.Emit(fmt.Sprintf("dec %s %s %d %s", buildName, c.ty, rows, hx(w)), obsUsed, oracle)
+			if n >= h.N {
+				break
+			}
+		}
+	}
+}
+
+// C06 for protocol messages: mutated encodings must give a value or an error, never a panic
+func init() { runners["c06msg"] = runC06Msg }
+
+func runC06Msg(h *H) {
+	revs := revisions(h)
+	n := 0
+	for n < h.N {
+		for _, m := range messages {
+			rev := revs[h.R.Intn(len(revs))]
+			if !m.aware {
+				rev = 0
+			}
+			v, fs := m.fresh()
+			for _, f := range fs {
+				f.gen(h.R)
+			}
+			var b proto.Buffer
+			m.enc(v, &b, rev)
+			body := b.Buf
+			if m.hasCod {
+				body = body[1:]
+			}
+			if len(body) == 0 {
+				continue
+			}
+			for k := 0; k < 6; k++ {
+				mut := append([]byte{}, body...)
+				switch h.R.Intn(3) {
+				case 0:
+					mut[h.R.Intn(len(mut))] ^= 1 << uint(h.R.Intn(8))
+				case 1:
+					off := h.R.Intn(len(mut))
+					ins := [][]byte{{0xff, 0xff, 0xff, 0xff, 0xff, 0xff, 0xff, 0xff, 0xff, 0x01}, {0x80, 0x80, 0x80, 0x80, 0x80, 0x80, 0x20}, {0xff, 0xff, 0xff, 0xff, 0x0f}}[h.R.Intn(3)]
+					mut = append(append(append([]byte{}, mut[:off]...), ins...), mut[off+1:]...)
+				default:
+					mut[h.R.Intn(len(mut))] = []byte{0, 1, 2, 0x7f, 0x80, 0xff}[h.R.Intn(6)]
+				}
+				v2, fs2 := m.fresh()
+				obs, _ := decodeObs(mut, func(r *proto.Reader) (string, error) {
+					err := m.dec(v2, r, rev)
+					return fieldsSx(fs2), err
+				})
+				oracle := "ok"
+				if strings.HasPrefix(obs, "crash") {
+					oracle = "FAIL:panic while decoding a " + m.name
+				}
+				h.Emit(fmt.Sprintf("dec %s %d %s", m.name, rev, hx(mut)), obs, oracle)
+				n++
+			}
+			h.Stat("msgmut." + m.name)
+		}
 	}
 }
